@@ -218,13 +218,17 @@ def check_receivers(eng, run):
         for st in an.latch_stores:
             guarded = False
             from sa.norm import cmp_canon, strip_not
+            from sa.norm import if_arms
             for iff in own_nodes(fn.node):
-                if not isinstance(iff, ast.If) or not (st in iff.body or st in iff.orelse):
+                if not isinstance(iff, ast.If):
+                    continue
+                then_arm, else_arm = if_arms(fn.node, iff)  # (a then-arm that always leaves makes what follows the else-arm)
+                if not (st in then_arm or st in else_arm):
                     continue
                 t, neg = strip_not(iff.test)
                 if isinstance(t, ast.NamedExpr) and isinstance(t.target, ast.Name):
                     t = t.target  # `if not (chunk := await recv()):`
-                if st in iff.orelse:
+                if st in else_arm:
                     neg = not neg
                 # the branch taken when the value just read is empty: `not x` / `x == 0` / `x <= 0` / `len(x) == 0` (or the else-arm of the opposite test)
                 if isinstance(t, ast.Name) and neg:
@@ -295,7 +299,8 @@ def check_receivers(eng, run):
             run.finding("C03.eof", fn, fn.node, "no ECONNABORTED exit for end-of-stream")
         # the loop cannot be left with the latch set by a normal return (fall-through)
         run.ob("C03.eof", key, not eof_bad and has_abort, raises=[f"{e}@eof={s}" for s, e in errnos])
-        tuples[key] = (not by_rule.get("C03.drain"), "True-only", not by_rule.get("C03.gate"), len(an.feeds) == 1, has_abort, len(an.reads) == 1)
+        # (the number of lexical feed / read sites is not compared: an early-exit rewrite of the loop changes it without changing what is fed)
+        tuples[key] = (not by_rule.get("C03.drain"), "True-only", not by_rule.get("C03.gate"), len(an.feeds) >= 1, has_abort, len(an.reads) >= 1)
     vals = set(tuples.values())
     if len(vals) > 1:
         from collections import Counter
@@ -303,7 +308,7 @@ def check_receivers(eng, run):
         for k, v in tuples.items():
             if v != maj:
                 fn = next(f for f, _, _ in recs if k.endswith(f.short) and k.split(".")[0] in f.module.name)
-                run.finding("C03.sib", fn, fn.node, f"receiver disagrees with its siblings on (drain-first, latch form, gate, single feed, ECONNABORTED, single read): {v} vs {maj}")
+                run.finding("C03.sib", fn, fn.node, f"receiver disagrees with its siblings: {v} vs {maj} (drain-first, latch form, gate, single feed, ECONNABORTED, single read)")
     run.ob("C03.sib", "four-receivers-agree", len(vals) == 1, tuples={k: list(v) for k, v in tuples.items()})
 
 
@@ -594,8 +599,8 @@ def check_send_eof_keeps_reading(eng, run):
     from sa.norm import nodes_inl
     n = 0
     for fn in eng.db.all_functions():
-        if fn.name != "send_eof" or fn.cls is None or isinstance(fn.node, ast.Lambda) or not fn.module.name.startswith("easynetwork."):
-            continue
+        if fn.name not in ("send_eof", "send_packet") or fn.cls is None or isinstance(fn.node, ast.Lambda) or not fn.module.name.startswith("easynetwork."):
+            continue  # (send_packet likewise: a failed send must not discard the packets that were already received)
         if fn.has_decorator("abstractmethod"):
             continue
         n += 1
@@ -612,9 +617,9 @@ def check_send_eof_keeps_reading(eng, run):
                     if target == owner.self_name or target in read_from:
                         closes.append(c)
         for c in closes[:1]:
-            run.finding("C03.eof", fn, _stmt_at(fn, c.lineno) if any(c is y for y in ast.walk(fn.node)) else fn.node, f"send_eof() runs `{ast.unparse(c)[:50]}`: closing the write half must leave the object open - "
+            run.finding("C03.eof", fn, _stmt_at(fn, c.lineno) if any(c is y for y in ast.walk(fn.node)) else fn.node, f"{fn.name}() runs `{ast.unparse(c)[:50]}`: closing the write half must leave the object open - "
                         "after the peer's end-of-stream a later read would fail with a closed-object error instead of the sticky end-of-stream")
-        run.ob("C03.eof", f"{fn.cls.name}.send_eof:does-not-close", not closes)
+        run.ob("C03.eof", f"{fn.cls.name}.{fn.name}:does-not-close", not closes)
     run.floor("C03.eof send_eof implementations", n, 6)
 
 
